@@ -641,11 +641,15 @@ func Fixed() []Gen {
 		v.Set(reflect.ValueOf(x))
 		return Val{v, class}
 	}
-	tg := &Tagged{Name: "n", Age: 3, Ptr: &one}
-	zoo := []interface{}{tg, []interface{}{1, 2.5, "s"}, map[interface{}]interface{}{"k": 1, 2: "v"}, 7, 1.5, &OneMap{map[string]int{"k": 1}}}
+	// (every value is built afresh: a slice or map that occurred twice by value would be one node for the
+	// projection and two items on the wire)
+	tg := func() *Tagged { o := 1; return &Tagged{Name: "n", Age: 3, Ptr: &o} }
+	zoo := func() []interface{} {
+		return []interface{}{tg(), []interface{}{1, 2.5, "s"}, map[interface{}]interface{}{"k": 1, 2: "v"}, 7, 1.5, &OneMap{map[string]int{"k": 1}}}
+	}
 	out = append(out, Gen{Name: "ifacezoo", T: ifaceT, Leaf: "iface", Depth: 2, Vals: []Val{
-		iv(tg, "ptr-to-registered"), iv([]interface{}{1, "a"}, "list"), iv(map[interface{}]interface{}{"k": 1}, "iimap"),
-		iv(zoo, "list-of-all"), iv(map[interface{}]interface{}{"all": zoo, "one": tg}, "map-of-all"),
-		iv(&OneIface{zoo}, "field-of-all")}})
+		iv(tg(), "ptr-to-registered"), iv([]interface{}{1, "a"}, "list"), iv(map[interface{}]interface{}{"k": 1}, "iimap"),
+		iv(zoo(), "list-of-all"), iv(map[interface{}]interface{}{"all": zoo(), "one": tg()}, "map-of-all"),
+		iv(&OneIface{zoo()}, "field-of-all")}})
 	return out
 }
